@@ -93,6 +93,13 @@ func genGuards() {
 	}
 	genGuardFile("GuardsComposite.lean", comp)
 
+	padM := map[string]string{"len(data)": "dlen", "length": "length"}
+	pad := []guardSite{
+		{Name: "left_Pad", File: "padding/left.go", Recv: "leftPadder", Func: "Pad", Params: []string{"dlen", "length"}, Map: padM},
+		{Name: "right_Pad", File: "padding/right.go", Recv: "rightPadder", Func: "Pad", Params: []string{"dlen", "length"}, Map: padM},
+	}
+	genGuardFile("GuardsPad.lean", pad)
+
 	tlv := []guardSite{
 		{Name: "tlv_unpackSubfieldsByTag", File: "field/composite.go", Recv: "Composite", Func: "unpackSubfieldsByTag",
 			Params: []string{"offset", "dlen", "fieldLength", "read", "start", "known:Bool", "skip:Bool"},
@@ -117,6 +124,9 @@ func genGuards() {
 			Params: []string{"i", "bitmapLen", "presence:Bool", "isSet:Bool", "found:Bool"},
 			Map: ids(map[string]string{"m.bitmap().Len()": "bitmapLen", "m.bitmap().IsBitmapPresenceBit(i)": "presence",
 				"m.bitmap().IsSet(i)": "isSet", "ok": "found"}, "i")},
+		{Name: "bitmap_Unpack", File: "field/bitmap.go", Recv: "Bitmap", Func: "Unpack",
+			Params: []string{"dae:Bool", "decodedLen", "firstBitClear:Bool"},
+			Map: map[string]string{"f.spec.DisableAutoExpand": "dae", "len(decoded)": "decodedLen", "decoded[0]&firstBitOn==0": "firstBitClear"}},
 		{Name: "message_pack", File: "message.go", Recv: "Message", Func: "pack",
 			Params: []string{"id", "presence:Bool", "isSet:Bool", "found:Bool"},
 			Map: map[string]string{"id": "id", "i": "id", "m.bitmap().IsBitmapPresenceBit(id)": "presence",
